@@ -150,7 +150,7 @@ def expect_model_violation(ctx, module, cfg, what):
 
 
 def run(ctx, replay=None):
-    return {"C31": run_c31, "C09": run_c09, "C32": run_c32, "C21": run_c21}[ctx.prop](ctx, replay)
+    return {"C31": run_c31, "C09": run_c09, "C32": run_c32, "C21": run_c21, "C20": run_c20, "C27": run_c27}[ctx.prop](ctx, replay)
 
 
 # ----------------------------------------------------------------------------- C31
@@ -365,4 +365,104 @@ def run_c21(ctx, replay):
               "homogeneity: the lattice unit is chosen by the harness, the model is unit-free",
               "rounding behaviour for arbitrary floats ('up to floating-point rounding') is NOT decided; a panic with "
               "DimensionalityConflictError counts as the dimensionality error"]
+    vlib.finish(ctx, "exploration", cov, assume, new, known)
+
+
+# ----------------------------------------------------------------------------- C20
+
+def run_c20(ctx, replay):
+    np_ = 2
+    binary = build(ctx)
+    mc = None
+    if replay:
+        scheds = [json.load(open(replay))["schedule"]]
+    else:
+        depth = 5 if ctx.thorough() else 4
+        mc = vlib.tlc(ctx, "Coord", "CONSTANT NP = %d\nCONSTANT MaxSteps = %d\nINIT Init\nNEXT Next\nINVARIANT C20\n" % (np_, depth), workers=4)
+        if mc.violated:
+            raise vlib.Inconclusive("the model violates its own monitor %s -- spec error, no verdict" % mc.violated)
+        num, sdepth = (4000, 12) if ctx.thorough() else (500, 8)
+        _, scheds = vlib.simulate_schedules(ctx, "Gen_Coord", "CONSTANT NP = %d\nCONSTANT MaxSteps = 100000\nINIT GenInit\nNEXT GenNext\n" % np_,
+                                            num, sdepth)
+        import random
+        rng = random.Random(ctx.seed * 7919 + 13)
+        for s in scheds:           # which adversarial float of the class: a concretization parameter, part of the schedule
+            for st in s:
+                st["fv"], st["rv"] = rng.randrange(0, 960), rng.randrange(0, 12)
+    tcfg = TRACE_CFG + "CONSTANT NP = %d\nCONSTANT MaxSteps = 100000\n" % np_
+    tp = execute(ctx, binary, "coord", scheds, "c")
+    rep = vlib.validate(ctx, "Trace_Coord", tcfg, tp)
+
+    def rerun(batch):
+        return vlib.validate(ctx, "Trace_Coord", tcfg, execute(ctx, binary, "coord", batch, "re"))
+
+    viol = confirm(ctx, rep, lambda tid: scheds[tid], rerun, per_key=2)
+    new, known = vlib.classify(ctx.prop, viol)
+    nsteps = sum(len(s) for s in scheds)
+    classes = {}
+    for s in scheds:
+        for st in s:
+            k = st["cc"] + "/" + st["rc"]
+            classes[k] = classes.get(k, 0) + 1
+    acc = sum(1 for l in vlib.read_ndjson(tp) if l["act"]["a"] == "obs" and l["obs"]["acc"] == 1)
+    cov = {
+        "states": mc.distinct if mc else 1, "transitions": mc.generated if mc else 1, "exhaustive": bool(mc),
+        "model_constants": "exhaustive: all observation sequences up to the tier's depth over 7 coordinate classes x 4 rtt classes x %d peers; "
+                           "simulation: %d sequences" % (np_, len(scheds)),
+        "traces_validated_against_impl": rep.traces, "trace_lines": rep.lines, "divergences": len(rep.diverged),
+        "evaluations": nsteps, "accepted_updates": acc, "distinct_nontrivial": len(set(json.dumps(s) for s in scheds)),
+        "class_pairs_covered": len(classes),
+        "rule": "TLC -simulate behaviours of Coord (completed pings with a coordinate class and an rtt class) executed on a real quiet "
+                "node through pingDelegate.NotifyPingComplete with seeded adversarial floats per class; after every step the real "
+                "coordinate, the cache and the rejected-counter are observed and judged by the C20 monitor",
+        "samples": [scheds[0][:6]] if scheds else [],
+    }
+    assume = ["the floating-point clauses (finite, dimensionality, height >= min, 0 <= error <= max) are sampled on the histories run, not proved",
+              "acceptance is read from the serf.coordinate.rejected counter (the delegate swallows Update's error)"]
+    if rep.diverged:
+        ctx.log("divergences (model cannot explain the observed accept/cache):", rep.diverged[:5])
+    vlib.finish(ctx, "exploration", cov, assume, new, known)
+
+
+# ----------------------------------------------------------------------------- C27
+
+def run_c27(ctx, replay):
+    binary = build(ctx)
+    mc = None
+    if replay:
+        scheds = [json.load(open(replay))["schedule"]]
+    else:
+        mc, states = dump_states(ctx, "Gen_HandlerContract", "INIT Init\nNEXT Next\nINVARIANT C27\nINVARIANT Laws\n",
+                                 keep=lambda s: s["ph"] == "in", workers=2)
+        if mc.violated:
+            raise vlib.Inconclusive("the contract definition violates %s -- spec error, no verdict" % mc.violated)
+        inputs = sorted((s["inp"] for s in states), key=lambda i: json.dumps(i, sort_keys=True))
+        scheds = [[i] for i in inputs]
+    tp = execute(ctx, binary, "handler", scheds, "h", timeout=3000)
+    rep = vlib.validate(ctx, "Trace_HandlerContract", TRACE_CFG, tp)
+
+    def rerun(batch):
+        return vlib.validate(ctx, "Trace_HandlerContract", TRACE_CFG, execute(ctx, binary, "handler", batch, "re"))
+
+    viol = confirm(ctx, rep, lambda tid: scheds[tid], rerun, per_key=2)
+    new, known = vlib.classify(ctx.prop, viol)
+    by_ep, runs = {}, 0
+    for l in vlib.read_ndjson(tp):
+        if l["act"]["a"] != "reset":
+            by_ep[l["act"]["ep"]] = by_ep.get(l["act"]["ep"], 0) + 1
+            runs += l["obs"]["count"]
+    cov = {
+        "states": mc.distinct if mc else 1, "transitions": mc.generated if mc else 1, "exhaustive": bool(mc),
+        "model_constants": "families " + json.dumps(by_ep, sort_keys=True) + "; alphabet a TAB NL backslash = , A - _ 7 role",
+        "traces_validated_against_impl": rep.traces, "trace_lines": rep.lines, "divergences": len(rep.diverged),
+        "evaluations": rep.lines - rep.traces, "script_invocations": runs, "distinct_nontrivial": len(set(json.dumps(s) for s in scheds)),
+        "rule": "one evaluation per TLC initial state of Gen_HandlerContract: the real ScriptEventHandler (ParseEventScript, Invoke, "
+                "invokeEventScript) runs /bin/sh scripts that dump /proc/$$/environ and stdin; queries are real *serf.Query values of "
+                "a real quiet node and the reply is captured on its transport",
+        "samples": [scheds[0]] if scheds else [],
+    }
+    assume = ["runs real shells: the contract's case analysis over a small alphabet (no NUL bytes: exec refuses them)",
+              "reply size classes stay clear of the exact limit boundary (encoding overhead bounded by 200 bytes)",
+              "tag order in the fourth stdin field is unspecified (Go map order): any order is accepted",
+              "empty payload gives empty stdin (docs: 'the payload (if any)')"]
     vlib.finish(ctx, "exploration", cov, assume, new, known)
